@@ -378,6 +378,15 @@ def run_case(desc):
                 repogen.apply_edits(root, desc['edits'])
             classes.append('cmd:' + c['cmd'])
             dual = dual_listed(root)
+            target_ignored = False
+            if sub:
+                try:
+                    import refscan
+                    ign = refscan.load_all(root).ignores
+                    target_ignored = any(
+                        sub == i or sub.startswith(i + '/') for i in ign)
+                except Exception:
+                    pass
             oc, records, out = gem.cli(argv)
             short = ' '.join(a if not a.startswith(root) else
                              '<tree>' + a[len(root):] for a in argv)
@@ -421,6 +430,8 @@ def run_case(desc):
                 names = set(re.findall(r"'([^']*)'", msg))
                 if names and names <= dual:
                     sig += ':path-listed-as-manifest-and-as-file'
+                elif sub and target_ignored:
+                    sig += ':update-of-ignored-directory'
             # input-class predicates of the recorded findings
             if (sig == 'AssertionError:update_entries_for_directory'
                     and profile == 'old-ebuild' and not msg):
